@@ -163,6 +163,15 @@ class Replay:
                     res = ("ok", project(S))
                 finally:
                     S.finalize()
+                # the recovery must be stable: a further start (after the recovering instance
+                # finished without changing anything) loads the same snapshot again
+                S = bstate._BobState()
+                try:
+                    again = project(S)
+                finally:
+                    S.finalize()
+                if again != res[1]:
+                    res = ("error", "second start after recovery loaded a different state")
             except BaseException as e:
                 res = ("error", "%s: %s" % (type(e).__name__, e))
         finally:
@@ -268,8 +277,9 @@ class Replay:
                 calls = [(lo, set(saved))]
                 try:
                     S = bstate._BobState()
-                except BobError as e:
-                    self.viol("start-failed", error=str(e), at=idx)
+                except Exception as e:
+                    bstate._BobState.instance = None
+                    self.viol("start-failed", error="%s: %s" % (type(e).__name__, e), at=idx)
                 self.emit_ops(lo)
                 proj = project(S)
                 if not self.snaps:
